@@ -13,66 +13,18 @@
      * execute_core_passthrough_proof / execute_core_fresh_aux_proof : statements other than rules are
        untouched, all aux predicates of one run are pairwise distinct and unknown to the naming state
        the translator was created with.
-   Stdlib only, no axioms. *)
+   Stdlib only; every theorem is closed under the global context. *)
 From Coq Require Import List String Ascii ZArith Bool Arith Lia Sorted Permutation OrderedTypeEx RelationClasses.
 From NGO Require Import Syntax.Ast Gen.Names Model.Traverse Model.Corr Model.Binding Model.Globals
-                        Model.Projection Link.GlobalsSpec.
+                        Model.Projection Link.GlobalsSpec Link.BindingPerm.
 Import ListNotations.
 Open Scope string_scope. Open Scope list_scope.
 
 (* ------------------------------------------------------------------ *)
-(* 1. sets of variable names (Binding.vset)                            *)
+(* 1. sets of variable names: the basic facts are in Link/BindingPerm.v *)
 (* ------------------------------------------------------------------ *)
-Lemma bsmem_In : forall x s, Binding.smem x s = true <-> In x s.
-Proof.
-  intros x s. unfold Binding.smem. rewrite existsb_exists. split.
-  - intros [y [Hin He]]. apply String.eqb_eq in He. subst. assumption.
-  - intros H. exists x. split; [assumption | apply String.eqb_refl].
-Qed.
-
-Lemma sadd_In : forall x s y, In y (sadd x s) <-> y = x \/ In y s.
-Proof.
-  intros x s y. unfold sadd. destruct (Binding.smem x s) eqn:E.
-  - apply bsmem_In in E. split; [auto | intros [-> | H]; assumption].
-  - rewrite in_app_iff. cbn. split.
-    + intros [H | [H | []]]; [right; assumption | left; symmetry; assumption].
-    + intros [H | H]; [right; left; symmetry; assumption | left; assumption].
-Qed.
-
-Lemma sadd_NoDup : forall x s, NoDup s -> NoDup (sadd x s).
-Proof.
-  intros x s H. unfold sadd. destruct (Binding.smem x s) eqn:E; [assumption|].
-  apply (Permutation_NoDup (l := x :: s)).
-  - apply Permutation_cons_append.
-  - constructor; [| assumption]. intros Hin. apply bsmem_In in Hin. congruence.
-Qed.
-
-Lemma supdate_In : forall xs s y, In y (supdate s xs) <-> In y s \/ In y xs.
-Proof.
-  unfold supdate. induction xs as [|x xs IH]; intros s y; cbn.
-  - tauto.
-  - rewrite IH, sadd_In. split.
-    + intros [[H | H] | H]; auto.
-    + intros [H | [H | H]]; auto.
-Qed.
-
-Lemma supdate_NoDup : forall xs s, NoDup s -> NoDup (supdate s xs).
-Proof.
-  unfold supdate. induction xs as [|x xs IH]; intros s H; cbn; [assumption|].
-  apply IH, sadd_NoDup, H.
-Qed.
-
-Lemma sof_In : forall xs y, In y (sof xs) <-> In y xs.
-Proof. intros xs y. unfold sof. rewrite supdate_In. cbn. tauto. Qed.
-
 Lemma sinter_In : forall a b x, In x (sinter a b) <-> In x a /\ In x b.
 Proof. intros a b x. unfold sinter. rewrite filter_In, bsmem_In. tauto. Qed.
-
-Lemma drop_anonymous_In : forall s x, In x (drop_anonymous s) <-> In x s /\ x <> "_".
-Proof. intros s x. unfold drop_anonymous. rewrite filter_In, negb_true_iff, String.eqb_neq. tauto. Qed.
-
-Lemma nonempty_false : forall (A: Type) (l: list A), nonempty l = false <-> l = [].
-Proof. intros A l. destruct l; cbn; split; congruence. Qed.
 
 (* collect_ast(r, "Variable") over a list of body elements, minus the anonymous variable *)
 Lemma vars_of_lits_In : forall lits x,
@@ -500,9 +452,23 @@ Proof.
   unfold split_accepted in HA. tauto.
 Qed.
 
-(* the staying rule is legal when the interface variables are pre-bound; the analysis is run on the
-   *unsorted* set t0, of which the returned list t is the sorted permutation *)
+(* the staying rule is legal when the interface variables t are pre-bound. good_split runs the
+   analysis on the unsorted set t0 (sorted(t0) = t); by Link/BindingPerm.v the order is irrelevant *)
 Theorem good_split_rest_legal_proof : forall new rest stm t,
+  good_split new rest stm = Ok (Some t) ->
+  exists bound, collect_binding_information_body rest (Some t) = Ok (bound, []).
+Proof.
+  intros new rest stm t H.
+  destruct (good_split_is_rule _ _ _ _ H) as [line [h [b ->]]].
+  apply good_split_accept_iff in H. destruct H as [gn [gh [go [t0 [HA ->]]]]].
+  destruct HA as [_ [_ [_ [_ [_ [_ [_ [_ [[br E8] _]]]]]]]]].
+  destruct (collect_binding_information_body_perm_safe rest t0 (sort_strings t0) br
+              (Permutation_sym (sort_strings_perm t0)) E8) as [br' [_ E]].
+  exists br'. assumption.
+Qed.
+
+(* the literal form of the test in the code *)
+Theorem good_split_rest_legal_unsorted : forall new rest stm t,
   good_split new rest stm = Ok (Some t) ->
   exists t0 bound, Permutation t0 t /\ t = sort_strings t0 /\
                    collect_binding_information_body rest (Some t0) = Ok (bound, []).
@@ -521,8 +487,8 @@ Theorem good_split_size_proof : forall new rest stm t,
     1 < List.length new /\ List.length new < List.length b /\
     (exists name args ext, In (BLit (Lit NoSign (ASym (TFun name args ext)))) rest) /\
     (* the other size tests *)
-    List.length t < List.length (match global_vars_inside_body new with Ok g => g | _ => [] end) /\
-    List.length t < List.length (match global_vars_inside_head h with Ok g => g | _ => [] end).
+    (exists gn gh, global_vars_inside_body new = Ok gn /\ global_vars_inside_head h = Ok gh /\
+                   List.length t < List.length gn /\ List.length t < List.length gh).
 Proof.
   intros new rest stm t H.
   destruct (good_split_is_rule _ _ _ _ H) as [line [h [b ->]]].
@@ -538,7 +504,8 @@ Proof.
     destruct at0 as [tm|? ?|?|? ? ? ?|? ? ?|?]; try discriminate Ha.
     destruct tm as [?|?|? ?|? ? ?|? ?|n args ext|?]; try discriminate Ha.
     exists n, args, ext. assumption.
-  - rewrite E6, E7, sort_strings_length. apply Nat.leb_gt in E12. apply Nat.leb_gt in E16. lia.
+  - exists gn, gh. rewrite sort_strings_length. apply Nat.leb_gt in E12. apply Nat.leb_gt in E16.
+    repeat split; assumption.
 Qed.
 
 (* ------------------------------------------------------------------ *)
@@ -564,6 +531,14 @@ Qed.
 
 Lemma rest_of_subseq : forall b new, subseq (rest_of b new) b.
 Proof. intros. apply subseq_filter. Qed.
+
+(* every body element stays in rest or is ==-equal to an element of new *)
+Lemma rest_of_cover : forall b new x,
+  In x b -> In x (rest_of b new) \/ mem bodyelem_eqb x new = true.
+Proof.
+  intros b new x Hx. unfold rest_of. destruct (mem bodyelem_eqb x new) eqn:E; [right; reflexivity|].
+  left. apply filter_In. split; [assumption | rewrite E; reflexivity].
+Qed.
 
 Lemma project_rule_loop_spec : forall subsets st line h b out st',
   project_rule_loop st line h b subsets = Ok (out, st') ->
@@ -879,6 +854,7 @@ Print Assumptions good_split_accept_iff.
 Print Assumptions good_split_interface_proof.
 Print Assumptions good_split_new_safe_proof.
 Print Assumptions good_split_rest_legal_proof.
+Print Assumptions good_split_rest_legal_unsorted.
 Print Assumptions good_split_size_proof.
 Print Assumptions project_rule_shape_proof.
 Print Assumptions project_rule_interface_proof.
